@@ -32,12 +32,6 @@ inductive LetTy : Option PTy → Ty → Ty → Prop where
   | plain {t : Ty} : t.hasAny = false → LetTy none t t
   | annotated {a : PTy} {t at' : Ty} : convertType true a = ([], at') → Compat (!t.hasAny) t at' → LetTy (some a) t at'
 
-/-- constant-ness of a block expression: no statements, constant value -/
-def blockCst (ss : PStmts) (c : Bool) : Bool :=
-  match ss with
-  | .nil => c
-  | _ => false
-
 mutual
 /-- the rule of the construct itself -/
 inductive Raw : Ctx → PExpr → Ty → Bool → Bool → List Ty → Prop where
@@ -67,48 +61,24 @@ inductive Raw : Ctx → PExpr → Ty → Bool → Bool → List Ty → Prop wher
   | assign {Γ op l r tl xl cl ll tr xr cr lr} :
       HasType Γ true l tl xl cl ll → HasType Γ true r tr xr cr lr → Compat false tr tl → assignOk op tl = true →
       Raw Γ (.assign op l r) (assignTy tl tr) (xl || xr) false (assignTy tl tr :: (ll ++ lr))
-  | callFn {Γ base args ps ret xb cb lb xa la} :
-      HasType Γ true base (.fn ps ret) xb cb lb → args.length = ps.length →
+  | callFn {Γ base args tb ps ret xb cb lb xa la} :
+      HasType Γ true base tb xb cb lb → callee tb = .fn ps ret → args.length = ps.length →
       ArgsOK Γ (ps.map (·.2)) Option.none args xa la →
       Raw Γ (.call base args) ret (xb || xa) false (ret :: (lb ++ la))
-  | callVar {Γ base args ps rest ret xb cb lb xa la} :
-      HasType Γ true base (.fnvar ps rest ret) xb cb lb → (ps.length = 0 ∨ ps.length ≤ args.length) →
+  | callVar {Γ base args tb ps rest ret xb cb lb xa la} :
+      HasType Γ true base tb xb cb lb → callee tb = .var ps rest ret → (ps.length = 0 ∨ ps.length ≤ args.length) →
       ArgsOK Γ ps (some rest) args xa la →
       Raw Γ (.call base args) ret (xb || xa) false (ret :: (lb ++ la))
   /-- calling something that never yields a value -/
   | callDiv {Γ base args tb xb cb lb} :
-      HasType Γ true base tb xb cb lb → (tb = .unknown ∨ tb = .never) →
+      HasType Γ true base tb xb cb lb → callee tb = .div →
       Raw Γ (.call base args) .unknown xb false (.unknown :: lb)
-  | indexAnyObj {Γ b i xb cb lb ti xi ci li} :
-      HasType Γ true b .anyobj xb cb lb → HasType Γ true i ti xi ci li → ti.kind = .str →
-      Raw Γ (.index b i) .any (xb || xi) cb (.any :: (lb ++ li))
-  | indexObjLit {Γ b key fields t xb cb lb xi ci li} :
-      HasType Γ true b (.obj fields) xb cb lb → HasType Γ true (.str key) .str xi ci li → lookupTy key fields = some t →
-      Raw Γ (.index b (.str key)) t (xb || xi) cb (t :: (lb ++ li))
-  | indexObjDyn {Γ b i fields xb cb lb ti xi ci li} :
-      HasType Γ true b (.obj fields) xb cb lb → HasType Γ true i ti xi ci li → ti.kind = .str → isStrLit i = Option.none →
-      Raw Γ (.index b i) .any (xb || xi) cb (.any :: (lb ++ li))
-  | indexList {Γ b i inner xb cb lb ti xi ci li} :
-      HasType Γ true b (.list inner) xb cb lb → HasType Γ true i ti xi ci li → ti.kind = .int →
-      Raw Γ (.index b i) inner (xb || xi) cb (inner :: (lb ++ li))
-  | indexStr {Γ b i xb cb lb ti xi ci li} :
-      HasType Γ true b .str xb cb lb → HasType Γ true i ti xi ci li → ti.kind = .int →
-      Raw Γ (.index b i) .str (xb || xi) cb (.str :: (lb ++ li))
-  | indexDiv {Γ b i tb xb cb lb ti xi ci li} :
-      HasType Γ true b tb xb cb lb → HasType Γ true i ti xi ci li → (tb = .unknown ∨ tb = .never) →
-      Raw Γ (.index b i) tb (xb || xi) cb (tb :: (lb ++ li))
-  | memberDiv {Γ b name op tb xb cb lb} :
-      HasType Γ false b tb xb cb lb → (tb.kind = .unknown ∨ tb.kind = .never) →
-      Raw Γ (.member b name op) tb xb cb (tb :: lb)
-  | memberDot {Γ b name tb t xb cb lb} :
-      HasType Γ false b tb xb cb lb → tb.kind ≠ .unknown → tb.kind ≠ .never → tb.kind ≠ .any → memberTy tb name = some t →
-      Raw Γ (.member b name .dot) t xb cb (t :: lb)
-  | memberArrow {Γ b name tb xb cb lb} :
-      HasType Γ false b tb xb cb lb → tb.kind = .anyobj →
-      Raw Γ (.member b name .arrow) (.opt .any) xb cb (.opt .any :: lb)
-  | memberTilde {Γ b name tb xb cb lb} :
-      HasType Γ false b tb xb cb lb → tb.kind = .anyobj →
-      Raw Γ (.member b name .tildeArrow) .any xb cb (.any :: lb)
+  | index {Γ b i tb xb cb lb ti xi ci li t} :
+      HasType Γ true b tb xb cb lb → HasType Γ true i ti xi ci li → indexRule tb ti (isStrLit i) = some t →
+      Raw Γ (.index b i) t (xb || xi) cb (t :: (lb ++ li))
+  | member {Γ b name op tb xb cb lb t} :
+      HasType Γ false b tb xb cb lb → memberRule tb name op = some t →
+      Raw Γ (.member b name op) t xb cb (t :: lb)
   | cast {Γ e t tb a xb cb lb} :
       HasType Γ false e tb xb cb lb → convertType true t = ([], a) → castOK tb a = true →
       Raw Γ (.cast e t) a xb cb (a :: lb)
@@ -136,7 +106,7 @@ inductive HasType : Ctx → Bool → PExpr → Ty → Bool → Bool → List Ty 
 inductive ElemsOK : Ctx → Ty → PExprs → Ty → Bool → Bool → List Ty → Prop where
   | nil {Γ lt} : ElemsOK Γ lt .nil lt false true []
   | cons {Γ lt e rest t x c l lt' x' c' l'} :
-      HasType Γ true e t x c l → (lt.kind = .any ∨ Compat false t lt) →
+      HasType Γ true e t x c l → elemOK t lt = true →
       ElemsOK Γ (if lt.kind == .any then t else lt) rest lt' x' c' l' →
       ElemsOK Γ lt (.cons e rest) lt' (x || x') (c && c') (l ++ l')
 /-- object literal fields: distinct names, none of them a builtin member name -/
@@ -219,20 +189,18 @@ inductive GlobalsOK : List (String × Ty) → List (String × Ty) → List PGlob
       GlobalsOK fns vars (g :: rest) vars' (vt :: l ++ l')
 
 /-- A function definition other than `main`: distinct, well-formed parameters, a well-formed
-return type, a body compatible with it. `cur` is the return type `return` statements are
-checked against (the signature registered under that name). -/
+return type, a body compatible with it; `return` statements are checked against the return
+type of the signature registered under the function's name (`curRet`). -/
 inductive FnOK (fns globals : List (String × Ty)) : PFn → List Ty → Prop where
-  | normal {f ps rt cps cur tb xb cb lb} :
+  | normal {f ps rt tb xb cb lb} :
       f.name ≠ "main" → convertParamList f.params = ([], ps) → dupNames [] ps = 0 → convertType true f.ret = ([], rt) →
-      lookupTy f.name fns = some (.fn cps cur) →
-      BlockOK { vars := paramScope [] ps ++ globals, fns := fns, ret := some cur, inLoop := false } f.body tb xb cb lb →
+      BlockOK { vars := paramScope [] ps ++ globals, fns := fns, ret := some (curRet fns f.name), inLoop := false } f.body tb xb cb lb →
       Compat true tb rt →
       FnOK fns globals f (rt :: lb)
   /-- `main` has no parameters and no result -/
-  | main {f rt cps cur tb xb cb lb} :
+  | main {f rt tb xb cb lb} :
       f.name = "main" → f.params = [] → convertType true f.ret = ([], rt) → (rt.kind = .null ∨ rt.kind = .unknown) →
-      lookupTy f.name fns = some (.fn cps cur) →
-      BlockOK { vars := globals, fns := fns, ret := some cur, inLoop := false } f.body tb xb cb lb →
+      BlockOK { vars := globals, fns := fns, ret := some (curRet fns f.name), inLoop := false } f.body tb xb cb lb →
       Compat true tb rt →
       FnOK fns globals f (rt :: lb)
 
